@@ -90,10 +90,11 @@ type gen struct {
 	keys map[string]keyParts
 }
 
-var bucketNames = []string{"b0", "b1", "b2", "b3", "zz", "a", "b0x", "ÿ"}
+var bucketNames = []string{"b0", "b1", "b2", "b3", "zz", "a", "b0x", "ÿ", "a/b0", "a\x00b1"}
 var keyStems = []string{"k", "k1", "key-", "a", "m\x00", "z", "é"}
 
-func (g *gen) bucketName() string { return bucketNames[g.t.Pick(4, 3, 2, 2, 1, 1, 1, 1)] }
+// (the last two names look like a path of two of the others joined by a separator)
+func (g *gen) bucketName() string { return bucketNames[g.t.Pick(8, 6, 4, 4, 2, 2, 2, 2, 1, 1)] }
 
 func (g *gen) freshKey() (string, int) {
 	stem := keyStems[g.t.Pick(6, 2, 2, 1, 1, 1, 1)]
